@@ -42,6 +42,30 @@ Theorem C15_index_agrees : forall c init, WellFormed c -> forall sch,
 Proof. intros c init H. exact (index_agrees c init H). Qed.
 Print Assumptions C15_index_agrees.
 
+(* The passwd semaphore is a COUNTER in the model ([semv], what semctl(GETVAL) reads): PasswdLock needs it positive and
+   decrements it, every PasswdUnlock increments it and nothing caps it. For the protocol as coded, under every schedule
+   and history (refusals inside the critical section — id found by the lookup under the lock, no free slot —,
+   interrupted waits, any number of later registrations on the same semaphore): the value never exceeds 1, it is 0
+   while a call is between its PasswdLock and its PasswdUnlock, it is 1 whenever no call is inside, in particular at
+   quiescence. (Proofs/C15.v ex_counter_2_shares_slot: from a value of 2 the step relation hands one slot to two ids.) *)
+Theorem C15_sem_counter : forall c init, WellFormed c -> forall sch,
+  let s := run c sch (init_st init) in
+  (semv s <= 1)%nat /\
+  (forall t, holder (pcs s t) = true -> semv s = 0%nat) /\
+  ((forall t, holder (pcs s t) = false) -> semv s = 1%nat) /\
+  (quiescent s -> semv s = 1%nat).
+Proof. intros c init H. exact (sem_counter c init H). Qed.
+Print Assumptions C15_sem_counter.
+
+(* the replay the check runs on observed traces (schedule numbers with observation marks where the driver read the
+   semaphore): its final state is [run] of the trace without the marks — so all theorems here apply to it — and every
+   value it reports at a mark is 0 or 1 *)
+Theorem C15_observed_counter : forall c init, WellFormed c -> forall zs s' o,
+  replay_obs c zs (init_st init) = Some (s', o) ->
+  s' = run c (unmark zs) (init_st init) /\ Forall (fun v => v = 0 \/ v = 1) o /\ (semv s' <= 1)%nat.
+Proof. intros c init H. exact (observed_counter c init H). Qed.
+Print Assumptions C15_observed_counter.
+
 (* no deadlock: while some call has not returned, some thread can move *)
 Theorem C15_progress : forall c init, WellFormed c -> forall sch t,
   let s := run c sch (init_st init) in
